@@ -406,7 +406,7 @@ impl KeyboardLayout for Azerty {
                 }
             }
             KeyCode::M => {
-                if modifiers.is_caps() {
+                if modifiers.is_shifted() {
                     DecodedKey::Unicode('?')
                 } else {
                     DecodedKey::Unicode(',')
